@@ -61,6 +61,10 @@ CLAIMED = {
             "Seeded exploration with the file system as the faulted resource: each run builds a generated directory tree on the real file system (nesting, names colliding after extension stripping, dotted directory names, all 16 supported extensions, empty/binary/UTF-8 contents, index.html at any level, files next to the directory), mounts it through Route::Dir with a generated omit-extension setting and mount route in the real server, and sends 4..20 requests (every file and directory, HEAD, `..`/`.`/percent-encoded/doubled-slash traversal variants, stripped/added extensions, outside names, names added later) while the tree is mutated after start-up (overwrite, truncate, delete, rename, add, replace by directory); a directory -> route-table model with the start-up bytes decides every answer.",
             "Trusts the directory model (DESIGN.md A.6) and the independent response parser; configurations the model rejects must panic at start-up and are discarded; no symlinks.",
             "directory reference model vs served bytes under post-start-up file-system mutation faults"),
+    "C20": ("DESIGN.md 5.C20",
+            "Claimed with explicit bounds. The date is a function of the clock, which the simulator owns: every request is handled at a tape-chosen simulated wall-clock instant in [0, 253402300799] (hook K1; quick: 480 k instants biased to month/year/century/leap boundaries; thorough: every day number 0..2,932,896 once at a seeded second, every second of day on 12 selected days, plus random instants) and the Date header on the wire must equal an independent civil-from-days IMF-fixdate formatter. Decimal and hexadecimal renderings are observed as Content-Length values and chunk-size lines of responses whose body / SSE message length the tape chooses (all lengths to 20,000, powers of ten and sixteen +-1; thorough up to 10^7 and 16^6).",
+            "NOT covered and not coverable by this technique: decimal/hex renderings of values a response cannot have (>= 2^24 up to 2^64). The reference date formatter is cross-checked against Python's datetime by tools/selftest.py on every run.",
+            "clock-jump injection + enumerated/biased instants against a reference formatter; response sizes as the carrier of number renderings"),
 }
 
 NOT_YET = "check not built yet in this round (work in progress; see DESIGN.md section 11 build order)"
